@@ -331,27 +331,34 @@ impl<'a> TypeGenerator<'a> {
         parent_type_params: &[TypeParameter],
         original_name: Option<&str>,
     ) -> Result<TypePath, TypegenError> {
-        if let Some(parent_type_param) = parent_type_params.iter().find(|tp| {
-            tp.concrete_type_id == id
-                && original_name.is_none_or(|original_name| tp.original_name == original_name)
-        }) {
-            let type_path = TypePath::from_parameter(parent_type_param.clone());
-            return Ok(type_path);
-        }
+        let mut id = id;
+        let mut original_name = original_name;
+        let ty = loop {
+            if let Some(parent_type_param) = parent_type_params.iter().find(|tp| {
+                tp.concrete_type_id == id
+                    && original_name.is_none_or(|original_name| tp.original_name == original_name)
+            }) {
+                let type_path = TypePath::from_parameter(parent_type_param.clone());
+                return Ok(type_path);
+            }
 
-        let mut ty = self.resolve_type(id)?;
+            let ty = self.resolve_type(id)?;
 
-        while ty.path.namespace().is_empty() && ty.path.ident() == Some("Cow".to_string()) {
-            let inner_ty_id = ty.type_params[0]
-                .ty
-                .ok_or_else(|| {
-                    TypegenError::InvalidType(
-                        "type parameters to Cow are not expected to be skipped".into(),
-                    )
-                })?
-                .id;
-            ty = self.resolve_type(inner_ty_id)?
-        }
+            // `Cow<T>` is represented by its owned inner type `T` (which may be a generic parameter).
+            if ty.path.namespace().is_empty() && ty.path.ident() == Some("Cow".to_string()) {
+                id = ty.type_params[0]
+                    .ty
+                    .ok_or_else(|| {
+                        TypegenError::InvalidType(
+                            "type parameters to Cow are not expected to be skipped".into(),
+                        )
+                    })?
+                    .id;
+                original_name = None;
+                continue;
+            }
+            break ty;
+        };
 
         let params: Vec<TypePath> = ty
             .type_params
